@@ -35,6 +35,7 @@ type varUsage struct {
 	loc        *Type // expected type at the position, nil when unknown
 	locDefault bool  // the position (argument / input field) declares a default value
 	oneOf      bool  // the variable is the single value of a oneOf input object: it must be non-nullable
+	inTyped    bool  // the variable sits inside a list or object literal given for a type other than a custom scalar
 }
 
 type vctx struct {
@@ -48,6 +49,7 @@ type vctx struct {
 	fragSpreads map[string][]string
 	shapeMemo   map[[2]*Selection]int8
 	mergeSeen   map[[2]*Selection]bool // pairs of fields whose sub-selections were already merged
+	typedLit    int                    // > 0 while inside a list/object literal given for a type other than a custom scalar
 }
 
 func (c *vctx) add(rule, f string, a ...interface{}) {
@@ -197,6 +199,10 @@ func ValidateDoc(s *Schema, d *Doc, o DocOpts) []DocViolation {
 			if def == nil {
 				c.add("NoUndefinedVariables", "variable $%s is not defined by operation %q", u.name, op.Name)
 				continue
+			}
+			if c.o.BigIntRejected && u.inTyped && containsBigInt(def.Default) {
+				// recorded deviation: converting the enclosing literal follows the variable to its default value
+				c.add("ValuesOfCorrectType", "variable $%s inside a typed literal has a default value with an integer beyond 64 bits", u.name)
 			}
 			if u.oneOf && !def.Type.NonNull {
 				c.add("ValuesOfCorrectType", "nullable variable $%s as the value of a oneOf input object", u.name)
@@ -464,8 +470,14 @@ func (c *vctx) value(v *Value, ty *Type, locDefault bool, usages *[]varUsage) {
 		return
 	}
 	if v.Kind == "Variable" {
-		*usages = append(*usages, varUsage{name: v.Raw, loc: ty, locDefault: locDefault})
+		*usages = append(*usages, varUsage{name: v.Raw, loc: ty, locDefault: locDefault, inTyped: c.typedLit > 0})
 		return
+	}
+	if (v.Kind == "List" || v.Kind == "Object") && ty != nil {
+		if def := c.s.Types[ty.Base()]; def != nil && !(def.Kind == "SCALAR" && !isBuiltinScalarName(def.Name)) {
+			c.typedLit++
+			defer func() { c.typedLit-- }()
+		}
 	}
 	if v.Kind == "Object" {
 		seen := map[string]bool{}
